@@ -8,6 +8,8 @@
                         (CategoryFilter)
             o any other handler (also S) | N a null handler entry (TNull) | ( ... ) nested pipeline
             q Q RotatingFileSink with a 1000-byte limit (Q: its first rename is blocked) — like R for the model
+            K the same on a file whose name ends with the name of a k sink — like R; k a rotating sink with a file-count
+            limit: what it keeps is a matter of retention (C06), it has no file to check here — like B
      msgs : items starting with f are explicit logger.flush() calls between messages (EFlush; they take no id);
             reconfigurations between two messages (EOp; no id either), <path> = handler indices joined by '.',
             empty = the logger itself:  +<path>:<handler>  append one handler (tree letters, may be a "( .. )")
@@ -75,8 +77,8 @@ let parse_items (s : string) : tree list =
     | c -> incr pos;
       let it = (match c with
         | 'F' | 'D' -> let i = !next in incr next; at_alias i; TSink (fresh (n_of_int i) false false)
-        | 'R' | 'r' | 'q' | 'Q' -> let i = !next in incr next; at_alias i; TSink (fresh (n_of_int i) true false)
-        | 'B' -> let i = !next in incr next; broken_sids := i :: !broken_sids; TSink (fresh (n_of_int i) false true)
+        | 'R' | 'r' | 'q' | 'Q' | 'K' -> let i = !next in incr next; at_alias i; TSink (fresh (n_of_int i) true false)
+        | 'B' | 'k' -> let i = !next in incr next; broken_sids := i :: !broken_sids; TSink (fresh (n_of_int i) false true)
         | '(' -> let l = items () in (if !pos < String.length s && s.[!pos] = ')' then incr pos); TPipe l
         | 'g' | 'n' | 'e' | 'x' | 'l' | 'y' -> TFilter (flt_of c)
         | 'N' -> TNull
